@@ -1,10 +1,6 @@
 PENDING = 'check under construction in this session; not claimed until it runs clean on the pinned tree'
 for _p in ['C%02d' % i for i in range(1, 21)]:
     NA[_p] = PENDING
-NA['C16'] = ('identity over all byte strings about the result of bytes.split; its truth is in the semantics of split, not the '
-             'shape of the code; only a proof against an axiomatisation of split (solver/prover family) would decide it, and '
-             'any shape rule would also fire on a correct rewrite')
-
 CLAIMED['C10'] = dict(
     category='proof',
     text=('Whole property. Acceptance depends only on (previous id, next id): the folded transition table is compared with '
@@ -213,3 +209,16 @@ CLAIMED['C06'] = dict(
           '(1 known finding: preamble indent); options stored verbatim (only length dropped); to_bytes leaves the tree unchanged.'),
     note='Byte identity on library-produced files and idempotence on foreign files are undecided as such.',
     technique='open-mapping (key-set) dataflow into call signatures + default-value table comparison + effect analysis')
+
+CLAIMED['C16'] = dict(
+    category='other',
+    text=('All four clauses, for the code shape: split_lines is abstractly interpreted over a dedicated finite domain (a list '
+          'is "n leading elements of one form + optional distinguished last element", forms P / P+NL / LOSSY) for the cases '
+          'keep_ends x data-ends-with-newline (x newline == LF); with the trusted algebra of bytes.split the resulting forms '
+          'decide losslessness of the kept-ends mode, termination of every line but the last, the line count and the relation '
+          'between the two modes. Any other list primitive (bytes.splitlines) is reported.'),
+    note=('Trusted: the algebra of bytes.split (data = p_0 NL ... NL p_n; no piece contains NL; last piece empty iff data ends '
+          'with NL) for separators without a proper border. An unrecognised rewrite (e.g. a find() loop) is an analysis error '
+          '(exit 2), never a verdict. Phase 1 declared this property not applicable; the shape domain was found while '
+          'triaging seeded changes that corrupt split_lines.'),
+    technique='abstract interpretation over a list-shape domain (symbolic pieces), case split on the guard conditions')
